@@ -80,15 +80,24 @@ def grep_audit(paths):
 
 
 class LeanLock:
+    """file lock on the Lean project (generated files + lake); re-entrant within one process"""
+    _depth = 0
+    _f = None
+
     def __enter__(self):
-        os.makedirs(WORK, exist_ok=True)
-        self.f = open(os.path.join(WORK, "lean.lock"), "w")
-        fcntl.flock(self.f, fcntl.LOCK_EX)
+        if LeanLock._depth == 0:
+            os.makedirs(WORK, exist_ok=True)
+            LeanLock._f = open(os.path.join(WORK, "lean.lock"), "w")
+            fcntl.flock(LeanLock._f, fcntl.LOCK_EX)
+        LeanLock._depth += 1
         return self
 
     def __exit__(self, *a):
-        fcntl.flock(self.f, fcntl.LOCK_UN)
-        self.f.close()
+        LeanLock._depth -= 1
+        if LeanLock._depth == 0:
+            fcntl.flock(LeanLock._f, fcntl.LOCK_UN)
+            LeanLock._f.close()
+            LeanLock._f = None
 
 
 def run(cmd, cwd=None, timeout=3600, input=None, env=None):
@@ -332,12 +341,14 @@ class Check:
         from translate import pysrc
         pysrc.REPO = REPO
         rep = {}
-        try:
-            with LeanLock():
+        # translation and build under ONE lock: another check running at the same time on another tree (development only)
+        # cannot replace the generated file in between
+        with LeanLock():
+            try:
                 rep = pysrc.main(groups=groups)
-        except Exception as e:  # noqa: BLE001  (unreadable source = broken tie)
-            rep = {"error": "%s: %s" % (type(e).__name__, e)}
-        ok, info = self.lean_obligations(module)
+            except Exception as e:  # noqa: BLE001  (unreadable source = broken tie)
+                rep = {"error": "%s: %s" % (type(e).__name__, e)}
+            ok, info = self.lean_obligations(module)
         info["translator"] = {k: {"untranslatable": v.get("untranslatable", {})} for k, v in rep.items() if isinstance(v, dict)}
         if "error" in rep:
             info["translator"]["error"] = rep["error"]
